@@ -1210,7 +1210,14 @@ class Signature:
             if composite not in composite_to_name:
                 return
             name = composite_to_name[composite]
-            new_keywords.append(ast.keyword(arg=name, value=arg))
+            if self.parameters[name].kind is ParameterKind.POSITIONAL_ONLY:
+                # cannot be passed by keyword; these come first, so the order is kept
+                new_args.append(arg)
+            else:
+                new_keywords.append(ast.keyword(arg=name, value=arg))
+        if not new_keywords:
+            # nothing can be turned into a keyword argument
+            return
         new_keywords += node.keywords
         new_node = ast.Call(func=node.func, args=new_args, keywords=new_keywords)
         ctx.visitor.show_error(
